@@ -274,23 +274,6 @@ theorem lex (s : Sx) : ∀ (d fuel : Nat) (k : Str) (pos : Nat) (expected : Nat)
     rw [hpos]
     simp [Sx.expAfter, Sx.toEx, Ex.toks, binTok]
 /-! ### end to end on the repaired `parse`/`evaluate` -/
-def arity (ts : List Token) : Nat :=
-  (ts.map fun t => if t.type == .num then 0 else if t.type == .op1 then 1 else 2).sum
-
-/-- `parse` + `evaluate` with the repaired `order_tokens` (parity check kept) -/
-def evaluateF (s : Str) : Except MErr (Option Q) := do
-  let (tokens, prio, pos) ← parseLoop (s.length + 1) s 0 0 (Primary + LParen + Sign) []
-  if prio ≥ 10 then .error (.math pos)
-  else if arity tokens + 1 != tokens.length then .error (.math pos)
-  else
-    let expr := orderF tokens
-    if expr.isEmpty then return none
-    let st ← evalLoop expr []
-    match st with
-    | [v] => return some v
-    | [] => .error (.internal "IndexError")
-    | _ => .error (.internal "Exception")
-
 theorem arity_toks (e : Ex) (d : Nat) : arity (e.toks d) + 1 = (e.toks d).length := by
   induction e generalizing d with
   | num v => simp [Ex.toks, arity, numTok]
